@@ -26,6 +26,7 @@ import (
 	"os"
 	"sort"
 	"strings"
+	"sync"
 	"sync/atomic"
 	"time"
 
@@ -465,6 +466,80 @@ func (o *orc) wrongKeys() {
 	}
 }
 
+// ---------------------------------------------------------------------------------------------- side by side
+
+// sideBySide: several encrypted filespaces with DIFFERENT key material used at the same time in one process
+// (the ciphers are process-wide singletons): every filespace must read back what it wrote and must refuse what
+// a filespace with another secret wrote, on every round — whatever the other goroutines are doing.  The
+// property quantifies over settings, not schedules; this batch only makes sure that "the same secret" and
+// "another secret" mean the same thing when filespaces work concurrently.  Verdicts are collected per
+// goroutine and reported afterwards (the orc is not shared while the goroutines run).
+func (o *orc) sideBySide() {
+	rounds := 150
+	if o.tier != "quick" {
+		rounds = 1500
+	}
+	for _, kind := range []string{"raw", "tagged"} {
+		for _, wp := range []string{"whole", "stream"} {
+			desc := fmt.Sprintf("side by side: 6 filespaces, 6 secrets, cipher=%s write=%s", kind, wp)
+			o.at(desc)
+			o.count("sidebyside")
+			b, cleanup, err := newBase("mem")
+			if err != nil {
+				o.fail("infra", err.Error())
+				continue
+			}
+			const n = 6
+			fss := make([]FS, n)
+			for i := range fss {
+				fss[i] = newEnc(b, false, []byte(fmt.Sprintf("secret-%d", i)), []byte("salt"), realCipher(kind))
+			}
+			var wg sync.WaitGroup
+			verdicts := make([]string, n)
+			for i := 0; i < n; i++ {
+				wg.Add(1)
+				go func(i int) {
+					defer wg.Done()
+					if p, v := hx.Guard(func() {
+						mine, other := fmt.Sprintf("f%d", i), fmt.Sprintf("f%d", (i+1)%n)
+						for r := 0; r < rounds && verdicts[i] == ""; r++ {
+							pt := []byte(fmt.Sprintf("plaintext of %d in round %d ................", i, r))
+							if err := writeVia(fss[i], mine, wp, [][]byte{pt}); err != nil {
+								verdicts[i] = fmt.Sprintf("rt round %d: write failed: %v", r, err)
+								return
+							}
+							parts, rerr := readVia(fss[i], mine, "whole", nil)
+							if rerr != nil || !bytes.Equal(content(parts), pt) {
+								verdicts[i] = fmt.Sprintf("rt round %d: the filespace that wrote the file does not read it back (err=%v)", r, rerr)
+								return
+							}
+							// the neighbour's file (another secret), if it exists already, must be refused
+							if b.IsFile(other) {
+								if _, xerr := readVia(fss[i], other, "whole", nil); xerr == nil {
+									verdicts[i] = fmt.Sprintf("wrongkey-accepted round %d: a filespace with another secret read the file", r)
+									return
+								}
+							}
+							atomic.AddInt64(&o.ticks, 1)
+						}
+					}); p {
+						verdicts[i] = fmt.Sprintf("panic %v", v)
+					}
+				}(i)
+			}
+			wg.Wait()
+			for i, v := range verdicts {
+				if v != "" {
+					cls := strings.SplitN(v, " ", 2)[0]
+					o.fail(cls, fmt.Sprintf("%s: filespace %d: %s", desc, i, v))
+				}
+			}
+			o.classes["sidebyside:rounds"] += rounds * n
+			cleanup()
+		}
+	}
+}
+
 // ---------------------------------------------------------------------------------------------- shared buffers
 
 // Several filespaces side by side, their Secret and Salt slices cut out of shared backing arrays with spare
@@ -699,6 +774,7 @@ func oracle(w *bufio.Writer, tier string) {
 	o.tamperLarge()
 	o.batch("wrong keys", 600*time.Second, o.wrongKeys)
 	o.batch("shared buffers", 600*time.Second, o.sharedBuffers)
+	o.batch("side by side", 600*time.Second, o.sideBySide)
 	o.nsSequences()
 	keys := make([]string, 0, len(o.classes))
 	for k := range o.classes {
